@@ -2,7 +2,7 @@
    Model: Model/VConstraint.v.  Proofs: Proofs/RangeSpec.v, RangeAlg.v, RangeOps.v, UnionHull.v, UnionExact.v. *)
 From Coq Require Import List Bool NArith String.
 From PC Require Import Base.Cmp Base.Result Model.Pep440 Spec.Pep440Spec Model.VConstraint
-     Proofs.VersionFacts Proofs.RangeSpec Proofs.RangeAlg Proofs.RangeOps Proofs.UnionHull Proofs.UnionExact Proofs.Contain Proofs.InterExact Proofs.DiffExact Proofs.DiffUnion Model.VHyp.
+     Proofs.VersionFacts Proofs.RangeSpec Proofs.RangeAlg Proofs.RangeOps Proofs.UnionHull Proofs.UnionExact Proofs.Contain Proofs.InterExact Proofs.DiffExact Proofs.DiffUnion Proofs.UnionTotalGood Model.VHyp.
 From PC Require Import Gen.RangeCmp Proofs.GenAgreeRange.
 Import ListNotations.
 
@@ -94,6 +94,16 @@ Theorem C05_union_of_exact : forall fuel cs c, forallb goodc cs = true -> vunion
   forall v, wf v = true -> regular_for v cs = true -> sem c v = existsb (fun x => sem x v) cs.
 Proof. intros fuel cs c G H. exact (exact_sem cs c G (vunion_of_sound fuel cs c G H)). Qed.
 Print Assumptions C05_union_of_exact.
+(* ... and defined: VersionUnion.of and union never raise on such operands, for every positive fuel (the look-back merge never trips
+   its assertion, the recursion guard is never needed) *)
+Theorem C05_union_of_defined : forall fuel cs, forallb goodc cs = true -> exists c, vunion_of (S fuel) cs = Ok c.
+Proof. exact vunion_of_total. Qed.
+Print Assumptions C05_union_of_defined.
+Theorem C05_union_defined : forall a b, goodc a = true -> goodc b = true ->
+  (match a with VOne (RV x) => exists al, allows b x = Ok al | _ => True end) ->
+  exists c, union a b = Ok c.
+Proof. exact union_total. Qed.
+Print Assumptions C05_union_defined.
 (* non-vacuity: parsed operands (a union and a range that bridges its members) meet the hypotheses, the union runs,
    and the result is the single range one expects *)
 Example C05_union_example :
